@@ -292,6 +292,29 @@ def _programs(out, info):
         ("lib/lpc/compiler.c", "epilog", r"reference_prog \(prog, \"epilog\"\); for \(i = 0; \(unsigned\) i < prog->num_inherited; i\+\+\) \{ reference_prog \(prog->inherit\[i\]\.prog, \"inheritance\"\); \}",
          "epilog no longer references the new program and every inherited program once"),
     ]
+    checks += [
+        # replace_programs(): which variables are moved, which are released, and the program switch
+        ("lib/efuns/replace_program.c", "replace_programs",
+         r"num_fewer = r_ob->ob->prog->num_variables_total - r_ob->new_prog->num_variables_total;.*"
+         r"if \(\(offset = r_ob->var_offset\)\) \{ svp = r_ob->ob->variables; "
+         r"for \(i = 0; i < r_ob->new_prog->num_variables_total; i\+\+\) \{ free_svalue \(svp, [^)]*\); \*svp = \*\(svp \+ offset\); \*\(svp \+ offset\) = const0u; svp\+\+; \} "
+         r"for \(i = 0; i < num_fewer; i\+\+\) \{ free_svalue \(svp, [^)]*\); \*svp\+\+ = const0u; \} \} "
+         r"else \{ svp = &r_ob->ob->variables\[r_ob->new_prog->num_variables_total\]; "
+         r"for \(i = 0; i < num_fewer; i\+\+\) \{ free_svalue \(svp, [^)]*\); \*svp\+\+ = const0u; \} \} "
+         r"r_ob->new_prog->ref\+\+; old_prog = r_ob->ob->prog; r_ob->ob->prog = r_ob->new_prog; r_next = r_ob->next; free_prog \(old_prog, 1\);",
+         "replace_programs no longer moves the kept variables to the front, releases EVERY other variable "
+         "(num_fewer slots behind them) and switches the program with `new_prog->ref++; ...; free_prog (old_prog, 1);`"),
+        ("src/simulate.c", "remove_destructed_objects",
+         r"if \(obj_list_replace\) replace_programs \(\); for \(ob = obj_list_destruct; ob; ob = next\) \{ next = ob->next_all; destruct2 \(ob\); \}",
+         "remove_destructed_objects no longer runs replace_programs() before destruct2() of every destructed object"),
+        # order of the calls of one sweep: a new call goes in front of the calls due at the same time
+        ("lib/efuns/call_out.c", "new_call_out",
+         r"for \(copp = &call_list\[tm\]; \*copp; copp = &\(\*copp\)->next\) \{ if \(\(\*copp\)->delta >= delay\) \{ \(\*copp\)->delta -= delay; cop->delta = delay; cop->next = \*copp; \*copp = cop;",
+         "new_call_out no longer inserts a call in front of the calls that are due at the same time (order of one sweep)"),
+        ("src/stack.c", "remove_object_from_stack",
+         r"for \(svp = start_of_stack; svp <= sp; svp\+\+\) \{ if \(svp->type != T_OBJECT\) continue; if \(svp->u\.ob != ob\) continue; free_object \(svp->u\.ob, [^)]*\); svp->type = T_NUMBER; svp->u\.number = 0; \}",
+         "remove_object_from_stack no longer releases and zeroes every slot of the whole value stack that holds the object"),
+    ]
     held = []
     for path, fn, pat, msg in checks:
         body = _fn(path, fn, "fn:" + fn)
